@@ -25,6 +25,28 @@ CONSTANTS Tier, Fam, SEED, SHARD, NSHARDS,
 VARIABLES c, o              \* configuration; its pair table and weighted histogram (g(r) families)
 vars == <<c, o>>
 
+\* ---- LatticeLemma: on small full lattices the shortcut of Conditional!WHistLat equals the pair loop (the shortcut is then
+\* used by the trace specification for lattices of a thousand particles and more)
+SmallLattice(n, a, wn) ==
+  LET d     == Len(n)
+      sites == LatSites(n, a)
+      ps    == IF d = 2 THEN [m \in 1..(n[1] * n[2]) |-> <<a * ((m - 1) \div n[2]), a * ((m - 1) % n[2])>>]
+               ELSE [m \in 1..(n[1] * n[2] * n[3]) |->
+                       <<a * ((m - 1) \div (n[2] * n[3])), a * (((m - 1) \div n[3]) % n[2]), a * ((m - 1) % n[3])>>]
+  IN  [ H |-> [k \in 1..d |-> [j \in 1..d |-> IF j = k THEN n[k] * a ELSE 0]], ppp |-> [k \in 1..d |-> 1], S |-> 10,
+        types |-> [i \in 1..Len(ps) |-> 1], pos |-> ps, wn |-> wn, sharp |-> 0,
+        kind |-> "bool", AS |-> 1, A |-> [i \in 1..Len(ps) |-> <<1, 0>>], lat |-> [n |-> n, a |-> a] ]
+SmallLattices == { SmallLattice(<<3, 3>>, 10, 7), SmallLattice(<<3, 5>>, 10, 7), SmallLattice(<<5, 5>>, 10, 11),
+                   SmallLattice(<<5, 3>>, 4, 3), SmallLattice(<<3, 3, 3>>, 10, 7), SmallLattice(<<3, 3, 5>>, 10, 7) }
+ASSUME LatticeLemma ==
+  \A lc \in SmallLattices :
+     /\ IsFullLattice(lc)
+     /\ LET a == WHistLat(lc) b == WHist(lc) IN
+        /\ a.w = b.w /\ a.cnt = b.cnt /\ a.tie = b.tie /\ a.nt = b.nt /\ b.cj = 0 /\ b.tr = 0
+        /\ \E k \in 1..GBins(lc) : b.cnt[k] + b.tie[k] > 0                      \* not vacuous
+     /\ ~IsFullLattice([lc EXCEPT !.pos[1] = lc.pos[2]])                           \* a site missing: not a full lattice
+     /\ ~IsFullLattice([lc EXCEPT !.A[1] = <<0, 0>>])                              \* not every particle selected
+
 Tri2(a, t, b) == << <<a, 0>>, <<t, b>> >>
 Tri3(a, b, cc, xy, xz, yz) == << <<a, 0, 0>>, <<xy, b, 0>>, <<xz, yz, cc>> >>
 R(x) == <<x, 0>>
